@@ -182,8 +182,13 @@ def _merge_atom_attributes_and_additional_attributes(
     for atom_index, attrs in atom_attrs.items():
         if atom_index in additional_attrs:
             # 0 is the default value of charge, radical and isotope entries and
-            # means "not set"
-            attrs |= {k: v for k, v in additional_attrs[atom_index].items() if v != 0}
+            # means "not set". A mass that is already present stems from the symbol
+            # D or T and is kept: ISO entries do not redefine hydrogen isotopes.
+            attrs |= {
+                k: v
+                for k, v in additional_attrs[atom_index].items()
+                if v != 0 and not (k == MASS and MASS in attrs)
+            }
 
 
 def _to_int(s: str) -> int:
